@@ -960,6 +960,20 @@ def rule_l11(F):
     return r
 
 
+def rule_l12(F):
+    """A matched value is a value of its own: `match x { Some(y) if g => .., Some(z) => .. }` takes its bindings out of what `x` was
+    when the match began, whatever a guard does to `x` meanwhile.  The MIR lowering stores the examinee in a temporary of the match
+    on every path to the dispatch (shared with C03.F17, which needs it for the drops): matched in place, a guard that assigns to
+    `x` changes what the later arms bind - a write through one name seen through another."""
+    from . import c03
+    r = c03.rule_f17(F)
+    r.rule = "C02.L12"
+    r.desc = "the examinee of a match is copied into a temporary of the match before the dispatch: arms bind what was matched, not what a guard made of the variable"
+    for v in r.violations:
+        v.rule = "C02.L12"
+    return r
+
+
 def rules(ctx):
     F = ctx["F"]
-    return [rule_l1(F), rule_l2(F), rule_l3(F), rule_l4(F), rule_l5(F), rule_l6(F), rule_l7(F), rule_l8(F), rule_l9(F), rule_l10(F), rule_l11(F)]
+    return [rule_l1(F), rule_l2(F), rule_l3(F), rule_l4(F), rule_l5(F), rule_l6(F), rule_l7(F), rule_l8(F), rule_l9(F), rule_l10(F), rule_l11(F), rule_l12(F)]
